@@ -84,7 +84,8 @@ func c20Hint(rng interface{ Intn(int) int }) int {
 type kdcBehaviour struct {
 	kind   string // reply partial close silent refuse
 	body   []byte
-	pieces bool // a TCP reply written in two pieces with a pause between
+	pieces bool          // a TCP reply written in two pieces with a pause between
+	delay  time.Duration // the KDC thinks before it answers
 }
 
 type fakeKDC struct {
@@ -180,6 +181,9 @@ func (k *fakeKDC) serveTCP() {
 			k.mu.Unlock()
 			switch k.tcp.kind {
 			case "reply":
+				if k.tcp.delay > 0 {
+					time.Sleep(k.tcp.delay)
+				}
 				out := make([]byte, 4+len(k.tcp.body))
 				binary.BigEndian.PutUint32(out, uint32(len(k.tcp.body)))
 				copy(out[4:], k.tcp.body)
@@ -408,10 +412,27 @@ func runC20(r *Run) {
 		{{"partial", "refuse"}, {"refuse", "reply"}},
 		{{"refuse", "refuse"}},
 	}
+	// reply sizes around the boundaries of the DER length encodings (the framed reply is 4 bytes longer)
+	var sweep []int
+	for n := 119; n <= 132; n++ {
+		sweep = append(sweep, n)
+	}
+	for n := 249; n <= 258; n++ {
+		sweep = append(sweep, n)
+	}
+	sweep = append(sweep, 65530, 65531, 65536)
+	if r.Thorough() {
+		for n := 0; n <= 300; n++ {
+			sweep = append(sweep, n)
+		}
+	}
+	nf += len(sweep)
 	for i := 0; i < nf; i++ {
 		nk := 1 + rng.Intn(3)
 		if i < len(scripted) {
 			nk = len(scripted[i])
+		} else if i < len(scripted)+len(sweep) {
+			nk = 1
 		}
 		var ks []*fakeKDC
 		anySilentOnly := true
@@ -431,6 +452,9 @@ func runC20(r *Run) {
 			t, u := mk(), mk()
 			if i < len(scripted) {
 				t.kind, u.kind = scripted[i][k][0], scripted[i][k][1]
+			} else if i < len(scripted)+len(sweep) {
+				t.kind, u.kind, t.pieces = "reply", "refuse", false
+				t.body = randBytes(sweep[i-len(scripted)])
 			}
 			ks = append(ks, startFakeKDC(t, u))
 		}
@@ -476,7 +500,7 @@ func runC20(r *Run) {
 		if rng.Intn(2) == 0 {
 			realm = ""
 		}
-		if i < len(scripted) { // the scripted combinations are for the default realm's KDCs and a regular message
+		if i < len(scripted)+len(sweep) { // the scripted combinations are for the default realm's KDCs and a regular message
 			realm = []string{"", "REALM.A"}[i%2]
 			if len(data) < 4 {
 				data = []byte{0, 0, 0, 3, 1, 2, 3}
@@ -589,6 +613,43 @@ func runC20(r *Run) {
 				r.Violation("c20-unfaithful", "the 200 body is not the reply of one of the realm's KDCs wrapped as a KDC-PROXY-MESSAGE with its 4-byte length prefix", rep)
 			}
 		}()
+	}
+	// a client that has sent its whole request and shuts down its sending side (HTTP/1.0 style,
+	// "Connection: close" clients) is still waiting for the answer
+	{
+		slowKDC := startFakeKDC(kdcBehaviour{kind: "reply", body: []byte("reply-for-the-half-closed-client"), delay: 300 * time.Millisecond}, kdcBehaviour{kind: "refuse"})
+		conf := filepath.Join(dir, "khalf.conf")
+		writeKrb5Conf(conf, map[string][]*fakeKDC{"REALM.A": {slowKDC}}, "REALM.A")
+		proxy := kdcproxy.InitKdcProxy(conf)
+		os.Remove(conf)
+		srv := httptest.NewServer(http.HandlerFunc(proxy.Handler))
+		body := kdcProxyMessage([]byte{0, 0, 0, 3, 1, 2, 3}, "", -1)
+		for _, half := range []bool{false, true} {
+			c, err := net.DialTimeout("tcp", strings.TrimPrefix(srv.URL, "http://"), 2*time.Second)
+			if err != nil {
+				r.Inconclusive()
+				continue
+			}
+			c.SetDeadline(time.Now().Add(10 * time.Second))
+			fmt.Fprintf(c, "POST /KdcProxy HTTP/1.1\r\nHost: gw\r\nContent-Type: application/kerberos\r\nContent-Length: %d\r\nConnection: close\r\n\r\n", len(body))
+			c.Write(body)
+			if half {
+				c.(*net.TCPConn).CloseWrite()
+			}
+			raw, _ := io.ReadAll(c)
+			c.Close()
+			r.Count(fmt.Sprintf("half-close:%v", half))
+			want := kdcProxyMessage(append([]byte{0, 0, 0, byte(len(slowKDC.tcp.body))}, slowKDC.tcp.body...), "", -1)
+			if !strings.HasPrefix(string(raw), "HTTP/1.1 200") || !bytes.HasSuffix(raw, want) {
+				line := string(raw)
+				if i := strings.Index(line, "\r\n"); i >= 0 {
+					line = line[:i]
+				}
+				r.Violation("c20-lost-reply", "a KDC of the realm answered completely but the client got no 200", fmt.Sprintf("raw HTTP client, complete POST, sending side shut down afterwards=%v; the KDC answers after 300 ms\nanswer: %q (%d bytes)\n", half, line, len(raw)))
+			}
+		}
+		srv.Close()
+		slowKDC.stop()
 	}
 	c20Binary(r)
 	r.extra["model_disagreements"] = drift
